@@ -56,7 +56,10 @@ func (f *Addf) Call(s *slip.Scope, args slip.List, depth int) slip.Object {
 	case nil:
 		list = args[1:]
 	case slip.List:
-		list = append(tv, args[1:]...)
+		// Always extend into new storage. Appending in place writes into
+		// spare capacity that another variable bound to the same list (or a
+		// longer one grown from it) also considers its own.
+		list = append(tv[:len(tv):len(tv)], args[1:]...)
 	default:
 		slip.TypePanic(s, depth, "symbol", tv, "list")
 	}
